@@ -416,7 +416,31 @@ def correspondence(ctx, obs, label, limit=None):
 
 
 # ------------------------------------------------------------------------------------------------ pipeline
+def replay(ctx):
+    """./check C18 --replay <file>: re-run the recorded input (same seed and tier -> the same generated inputs) through the harness and
+    the property oracle, and report only the recorded signature.  Records of broken proof obligations / correspondence cases have no
+    input of their own: for those the full check is the replay."""
+    rec = json.load(open(ctx.replay))
+    sig = rec.get("signature", {})
+    if rec.get("stage") in ("S3", "S4") or sig.get("kind") in ("proof", "model_mismatch"):
+        ctx.log("REPLAY: the record is a broken proof obligation / correspondence case; running the full check")
+        ctx.replay = None
+        ctx.seed, ctx.tier = int(rec.get("seed", ctx.seed)), rec.get("tier", ctx.tier)
+        return run(ctx)
+    ctx.seed, ctx.tier = int(rec.get("seed", ctx.seed)), rec.get("tier", ctx.tier)
+    binp = build_harness(ctx)
+    obs = run_harness(ctx, binp, ["c18", ctx.seed, 2 if ctx.tier == "quick" else 8, 6 if ctx.tier == "quick" else 16])
+    oracle(ctx, obs)
+    hits = [v for v in ctx.violations if v["sig"] == sig]
+    ctx.log(f"REPLAY {ctx.replay}: signature {sig} {'REPRODUCES' if hits else 'does not reproduce'} ({len(hits)} matching of {len(ctx.violations)} violations)")
+    ctx.violations = hits
+    ctx.cov["rule"] = "replay of one recorded input (seed and tier of the record)"
+    return finish(ctx)
+
+
 def run(ctx):
+    if getattr(ctx, "replay", None):
+        return replay(ctx)
     binp = build_harness(ctx)
     msgs, spans = regen(ctx, ["sweep", "poling", "grid"])
     ctx.cov["translated_spans"] = {k: v for k, v in spans.items() if k.split("::")[0] in ("sweep", "spdc_iter", "beam", "spdc_obj", "config", "utils", "math")}
